@@ -8,10 +8,15 @@ Streams (``case["kind"]``):
 * ``params``   — ``_get_bucket_batch_sampler_params`` on arbitrary length lists.
 * ``window``   — ``extract_window`` (exhaustive for small T / left / right).
 * ``lang`` / ``spect`` / ``cw`` — the three collate functions called directly.
-* ``loader``   — real data directories written to a temp dir, the real loaders
-  (SpectDataLoader, LangDataLoader, ContextWindowDataLoader and the four deprecated classes)
-  iterated for several epochs with ``num_workers=0``, optionally under a simulated process
-  group; the Lean model gets the epoch orderings from an independent sampler object.
+* ``loader``   — real data directories written to a temp dir (optionally with a file prefix /
+  suffix, renamed sub-directories, no ali/ or no ref/ directory, distractor files), the real
+  loaders (SpectDataLoader, LangDataLoader, ContextWindowDataLoader and the four deprecated
+  classes) given a path or a data-set object, merged or split parameter objects, options passed
+  or left to the class defaults, driven through a sequence of operations (k epochs, a jump of
+  ``loader.epoch``, an abandoned iteration, a rewind), optionally under a simulated process
+  group with every ``on_uneven_distributed`` mode, a few with worker processes; the Lean model
+  (C13's sampler model + the ``Loader`` object model) gets the whole-data-set ordering of each
+  epoch computed here with numpy, never from the library.
 """
 import atexit
 import contextlib
@@ -103,26 +108,42 @@ def ref_of(i, R, two_d):
     return [1000 * (i + 1) + r for r in range(R)]
 
 
-def dataset_dir(lens, rlens, two_d, with_ali, with_ref):
-    """A SpectDataSet directory (feat/, ali/, ref/); cached per run."""
+SUBDIRS = {False: ("feat", "ali", "ref"), True: ("f", "a", "r")}
+
+
+def layout_key(case):
+    return (case.get("prefix", ""), case.get("suffix", ".pt"), bool(case.get("subdirs", False)),
+            bool(case.get("with_ali", True)), bool(case.get("with_ref", True)))
+
+
+def dataset_dir(lens, rlens, two_d, with_ali=True, with_ref=True, prefix="", suffix=".pt", subdirs=False):
+    """A SpectDataSet directory (feat/, ali/, ref/ or f/, a/, r/); cached per run. With a file
+    prefix / a non-default suffix every sub-directory also holds a file that must NOT count
+    (right suffix but no prefix / the default suffix)."""
     import torch
-    key = (tuple(lens), tuple(rlens), two_d, with_ali, with_ref)
+    key = (tuple(lens), tuple(rlens), two_d, with_ali, with_ref, prefix, suffix, subdirs)
     if key in _DIRS:
         return _DIRS[key]
     d = os.path.join(_root(), f"ds{len(_DIRS)}")
-    os.makedirs(os.path.join(d, "feat"))
-    if with_ali:
-        os.makedirs(os.path.join(d, "ali"))
-    os.makedirs(os.path.join(d, "ref"))
+    fd, ad, rd = (os.path.join(d, x) for x in SUBDIRS[bool(subdirs)])
+    present = [fd] + ([ad] if with_ali else []) + ([rd] if with_ref else [])
+    for x in present:
+        os.makedirs(x)
     for i, (T, R) in enumerate(zip(lens, rlens)):
-        torch.save(torch.tensor(feat_of(i, T), dtype=torch.float).view(T, F), f"{d}/feat/{utt_id(i)}.pt")
+        name = prefix + utt_id(i) + suffix
+        torch.save(torch.tensor(feat_of(i, T), dtype=torch.float).view(T, F), os.path.join(fd, name))
         if with_ali:
-            torch.save(torch.tensor(ali_of(i, T), dtype=torch.long), f"{d}/ali/{utt_id(i)}.pt")
+            torch.save(torch.tensor(ali_of(i, T), dtype=torch.long), os.path.join(ad, name))
         if with_ref:
             r = torch.tensor(ref_of(i, R, two_d), dtype=torch.long)
             if two_d:
                 r = r.view(R, 3)
-            torch.save(r, f"{d}/ref/{utt_id(i)}.pt")
+            torch.save(r, os.path.join(rd, name))
+    for x in present:
+        if prefix:
+            torch.save(torch.zeros(1, F), os.path.join(x, "x-" + utt_id(97) + suffix))
+        if suffix != ".pt":
+            torch.save(torch.zeros(1, F), os.path.join(x, prefix + utt_id(98) + ".pt"))
     _DIRS[key] = d
     return d
 
@@ -133,28 +154,129 @@ def tolist_int(t):
     return t.to(torch.long).tolist()
 
 
-def sub_order(case, e):
-    """The sample order the loader's sampler yields in epoch `e` for this rank, from an
-    independent sampler object (C13 checks that object against its own model)."""
-    from pydrobert.torch.data import EpochRandomSampler, EpochSequentialSampler
-    N = len(case["lens"])
+# What a loader class does with an option that is left out of the constructor call: the documented
+# defaults of the three loaders, the historical ones of the deprecated Training / Evaluation classes.
+CLS_DEFAULTS = {
+    "spect": dict(shuffle=True, sort_batch=False, batch_first=True, suppress_alis=True,
+                  suppress_uttids=True, tokens_only=True),
+    "spect_train": dict(shuffle=True, sort_batch=True, batch_first=True, suppress_alis=False,
+                        suppress_uttids=True, tokens_only=False),
+    "spect_eval": dict(shuffle=False, sort_batch=True, batch_first=True, suppress_alis=False,
+                       suppress_uttids=False, tokens_only=False),
+    "lang": dict(shuffle=True, sort_batch=False, batch_first=True, suppress_uttids=True, tokens_only=True),
+    "cw": dict(shuffle=True, suppress_uttids=True),
+    "cw_train": dict(shuffle=True, suppress_uttids=True),
+    "cw_eval": dict(shuffle=False, suppress_uttids=False),
+}
+CASE_KEY = {"shuffle": "shuffle", "sort_batch": "sort", "batch_first": "batch_first",
+            "suppress_alis": "suppress_alis", "suppress_uttids": "suppress_uttids", "tokens_only": "tokens_only"}
+MVN_MEAN, MVN_STD = [500.0, -3.0], [2.0, 0.5]
+
+
+def omitted(case):
+    om = set(case.get("omit", ()))
+    if case.get("defaults"):
+        om |= {"suppress_uttids", "suppress_alis", "tokens_only"}
+    return om
+
+
+def eff(case):
+    """The options in force for a loader case: the value in the call, or the class default when the
+    option is left out (`omit`)."""
     cls = case["cls"]
-    mode = "ignore" if cls.startswith("cw") else ("drop" if case["drop"] else case["uneven"])
-    with fake_dist(case.get("rank", 0), case.get("world", 0)):
-        if shuffle_of(case):
-            s = EpochRandomSampler(list(range(N)), e, case["seed"], mode)
-        else:
-            s = EpochSequentialSampler(list(range(N)), e, mode)
-        return [int(x) for x in s.get_samples_for_epoch(e)]
+    d = CLS_DEFAULTS[cls]
+    om = omitted(case)
+    cw = cls.startswith("cw")
+    o = {"cw": cw, "lang": cls == "lang"}
+    for k, ck in CASE_KEY.items():
+        if k in d:
+            o[k] = d[k] if k in om else bool(case[ck])
+    if cw:
+        o.update(sort_batch=False, batch_first=True, suppress_alis=False, tokens_only=True)
+    if cls == "lang":
+        o["suppress_alis"] = True
+    o["init_epoch"] = 0 if "init_epoch" in om else case["init_epoch"]
+    o["uneven"] = "raise" if "uneven" in om else case.get("uneven", "uneven")
+    o["nb"] = 1 if (cw or case.get("legacy_params")) else case["nb"]
+    N = len(case["lens"])
+    sub = case.get("subset")
+    o["ids"] = sorted(i for i in sub if 0 <= i < N) if sub else list(range(N))
+    o["sos"], o["eos"] = case.get("sos"), case.get("eos")
+    o["with_ali"] = bool(case.get("with_ali", True))
+    o["with_ref"] = bool(case.get("with_ref", True))
+    o["transformed"] = bool(case.get("mvn") or case.get("delta"))
+    o["workers"] = int(case.get("num_workers", 0))
+    return o
 
 
-def shuffle_of(case):
-    return bool(case["shuffle"])
+def ref_expected(case, o, i):
+    """The reference of utterance i as the data set must present it (tokens_only, sos, eos)."""
+    two = bool(case["two_d"]) and not o["tokens_only"]
+    r = ref_of(i, case["rlens"][i], two)
+    if o["sos"] is not None:
+        r = ([[o["sos"], -1, -1]] if two else [o["sos"]]) + r
+    if o["eos"] is not None:
+        r = r + ([[o["eos"], -1, -1]] if two else [o["eos"]])
+    return r
 
 
 def key_lens(case):
-    """The lengths the loader buckets/sorts by."""
-    return case["rlens"] if case["cls"] == "lang" else case["lens"]
+    """The lengths the loader buckets / sorts by, per data-set index."""
+    o = eff(case)
+    if o["lang"]:
+        return [len(ref_expected(case, o, i)) for i in o["ids"]]
+    return [case["lens"][i] for i in o["ids"]]
+
+
+def ops_of(case):
+    """The operations applied to the loader object: k epochs, then optionally a jump of
+    `loader.epoch` + one epoch, optionally an abandoned iteration (first batch only) + one epoch,
+    finally a rewind to the first epoch + one epoch."""
+    o = eff(case)
+    e0 = o["init_epoch"]
+    ops = [("serve", "epoch")] * case["epochs"]
+    if case.get("jump") is not None:
+        ops += [("set", int(case["jump"])), ("serve", "jump")]
+    if case.get("abandon"):
+        ops += [("set", e0), ("partial", "abandoned"), ("serve", "after_abandon")]
+    ops += [("set", e0), ("serve", "rewound")]
+    return ops
+
+
+def epochs_reached(case):
+    o = eff(case)
+    e, out = o["init_epoch"], set()
+    for op, arg in ops_of(case):
+        if op == "set":
+            e = arg
+        else:
+            out.update((e, e + 1))
+            e += 1
+    return sorted(out)
+
+
+def ordering(case, seed, e, N):
+    """The whole-data-set ordering of epoch e, from numpy directly (the documented seeding
+    `RandomState((base_seed, epoch)).permutation(N)`), or 0..N-1 without shuffling."""
+    if eff(case)["shuffle"]:
+        import numpy as np
+        return [int(x) for x in np.random.RandomState((seed, e)).permutation(N)]
+    return list(range(N))
+
+
+def sub_order(case, seed, e):
+    """The sample order an independent library sampler object yields in epoch `e` for this rank
+    (C13 checks that object against its own model); cross-checked against the model's order."""
+    from pydrobert.torch.data import EpochRandomSampler, EpochSequentialSampler
+    o = eff(case)
+    N = len(o["ids"])
+    mode = "ignore" if o["cw"] else ("drop" if case["drop"] else o["uneven"])
+    with fake_dist(case.get("rank", 0), case.get("world", 0)):
+        if o["shuffle"]:
+            s = EpochRandomSampler(list(range(N)), e, seed, mode)
+        else:
+            s = EpochSequentialSampler(list(range(N)), e, mode)
+        return [int(x) for x in s.get_samples_for_epoch(e)]
 
 
 # ------------------------------------------------------------------------------ the check
@@ -175,6 +297,7 @@ class C14(PropertyCheck):
         "size_batch_by_length with a zero-length bucket bound: ZeroDivisionError is a listed known finding",
     ]
     exhaustive = {"quick": False, "thorough": False}
+    _seeds = {}         # base seeds drawn by loaders built without `seed` (run_impl -> model_request)
     quick_budget_s = 200
     thorough_budget_s = 1500
 
@@ -218,6 +341,11 @@ class C14(PropertyCheck):
             b2s = [[b, rng.randrange(1, 6)] for b in bids]
             rng.shuffle(b2s)
             case = {"kind": "sampler", "order": order, "i2b": i2b, "b2s": b2s, "drop": rng.random() < 0.5}
+            kind = rng.choice(("int", "int", "neg", "str", "tuple"))
+            if kind != "int":
+                case["idkind"] = kind       # bucket ids are any sortable hashables
+            if not case["drop"] and rng.random() < 0.2:
+                case["drop_omitted"] = True
             r = rng.random()
             if r < 0.06 and i2b:
                 case["i2b"] = i2b[:-1]
@@ -240,6 +368,13 @@ class C14(PropertyCheck):
                         for rev in (False, True):
                             yield {"kind": "window", "feat": feat, "frame": frame, "left": left,
                                    "right": right, "reverse": rev}
+        # other widths, memory layouts and dtypes of the feature matrix, larger contexts
+        for _ in range({"quick": 250, "thorough": 2500, "search": 1500}[tier]):
+            T, Fw = rng.randrange(1, 7), rng.choice((1, 2, 3, 5))
+            yield {"kind": "window", "feat": [[10 * t + f + 1 for f in range(Fw)] for t in range(T)],
+                   "frame": rng.randrange(T), "left": rng.choice((0, 1, 2, 4, 9)),
+                   "right": rng.choice((0, 1, 2, 4, 9)), "reverse": rng.random() < 0.5,
+                   "layout": rng.choice(("contig", "strided", "transposed", "f64", "i64"))}
 
     def params_cases(self, rng, tier):
         if tier == "quick":
@@ -257,33 +392,48 @@ class C14(PropertyCheck):
             lo = 0 if rng.random() < 0.1 else 1
             lens = [rng.randrange(lo, hi + 1) for _ in range(n)]
             yield {"kind": "params", "lens": lens, "nb": rng.randrange(2, 7), "B": rng.randrange(1, 6),
-                   "dynamic": rng.random() < 0.5}
+                   "dynamic": rng.random() < 0.5,
+                   "elem": rng.choice(("pair", "pair", "bare", "bare2d", "lang_pair", "quad"))}
 
     def collate_cases(self, rng, tier):
-        n = {"quick": 150, "thorough": 1500, "search": 1000}[tier]
+        n = {"quick": 220, "thorough": 1800, "search": 1000}[tier]
         for _ in range(n):
             N = rng.randrange(1, 6)
             lens = [rng.choice((0, 1, 1, 2, 3, 3)) for _ in range(N)]
             rl = [rng.choice((0, 1, 2, 2, 4)) for _ in range(N)]
+            extra = {"seq_type": rng.choice(("list", "list", "tuple")),
+                     "fdtype": rng.choice(("float32", "float32", "float64")),
+                     "rdtype": rng.choice(("int64", "int64", "int32"))}
+            if rng.random() < 0.15:     # every optional argument left to its documented default
+                yield {"kind": "lang", "rlens": rl, "two_d": rng.random() < 0.4, "sort": True,
+                       "batch_first": True, "has_uttids": False, "omit_args": True, **extra}
+                yield {"kind": "spect", "lens": lens, "rlens": rl, "two_d": rng.random() < 0.4,
+                       "ali": [rng.random() < 0.8 for _ in range(N)], "ref": [rng.random() < 0.8 for _ in range(N)],
+                       "sort": True, "batch_first": True, "has_alis": True, "has_uttids": False,
+                       "omit_args": True, **extra}
+                yield {"kind": "cw", "lens": lens, "C": rng.randrange(1, 4), "ali": [True] * N,
+                       "has_uttids": False, "omit_args": True, **extra}
+                continue
             yield {"kind": "lang", "rlens": rl, "two_d": rng.random() < 0.4, "sort": rng.random() < 0.5,
-                   "batch_first": rng.random() < 0.5, "has_uttids": rng.random() < 0.5}
+                   "batch_first": rng.random() < 0.5, "has_uttids": rng.random() < 0.5, **extra}
             ali = rng.choice(("all", "all", "none", "some"))
             ref = rng.choice(("all", "all", "none", "some"))
             yield {"kind": "spect", "lens": lens, "rlens": rl, "two_d": rng.random() < 0.4,
                    "ali": [ali == "all" or (ali == "some" and rng.random() < 0.6) for _ in range(N)],
                    "ref": [ref == "all" or (ref == "some" and rng.random() < 0.6) for _ in range(N)],
                    "sort": rng.random() < 0.5, "batch_first": rng.random() < 0.5,
-                   "has_alis": rng.random() < 0.7, "has_uttids": rng.random() < 0.5}
+                   "has_alis": rng.random() < 0.7, "has_uttids": rng.random() < 0.5, **extra}
             yield {"kind": "cw", "lens": lens, "C": rng.randrange(1, 4),
                    "ali": [ali != "none" and (ali == "all" or rng.random() < 0.6) for _ in range(N)],
-                   "has_uttids": rng.random() < 0.5}
+                   "has_uttids": rng.random() < 0.5, **extra}
 
     LOADER_CLASSES = ("spect", "spect", "spect", "lang", "lang", "cw", "spect_train", "spect_eval",
                       "cw_train", "cw_eval")
 
     def length_sets(self, rng, tier):
-        """Data sets of 0..10 utterances; ties at bucket boundaries, buckets smaller than a batch."""
-        fixed = [[], [3], [2, 2], [1, 2, 3], [2, 2, 2, 2], [1, 1, 5, 5, 5], [4, 1, 3, 1, 2, 6],
+        """Data sets of 0..10 utterances; ties at bucket boundaries, buckets smaller than a batch,
+        a zero-length utterance."""
+        fixed = [[], [3], [2, 2], [1, 2, 3], [0, 2, 1], [2, 2, 2, 2], [1, 1, 5, 5, 5], [4, 1, 3, 1, 2, 6],
                  [1, 1, 1, 1, 1, 9, 9, 9, 9, 9], [3, 1, 4, 1, 5, 9, 2, 6, 5, 3]]
         extra = 3 if tier == "quick" else 12
         for _ in range(extra):
@@ -292,38 +442,116 @@ class C14(PropertyCheck):
             fixed.append([rng.randrange(1, hi + 1) for _ in range(n)])
         return fixed
 
+    def layouts(self, rng):
+        """Directory layouts of one data set: the default one + two drawn ones (each layout is a
+        directory on disk, so they are drawn per data set, not per case)."""
+        out = [{}]
+        for _ in range(2):
+            lay = {}
+            if rng.random() < 0.4:
+                lay["prefix"] = "p-"
+            if rng.random() < 0.3:
+                lay["suffix"] = ".t7"
+            if rng.random() < 0.4:
+                lay["subdirs"] = True
+            r = rng.random()
+            if r < 0.25:
+                lay["with_ali"] = False
+            elif r < 0.5:
+                lay["with_ref"] = False
+            out.append(lay)
+        return out
+
     def loader_cases(self, rng, tier):
         sets = self.length_sets(rng, tier)
-        per_set = {"quick": 36, "thorough": 300, "search": 200}[tier]
+        per_set = {"quick": 40, "thorough": 300, "search": 200}[tier]
+        n_workers_left = {"quick": 10, "thorough": 60, "search": 10}[tier]
+        for bad in ("batch_size", "drop_last", "sampler", "batch_sampler", "collate_fn"):
+            cls = rng.choice(self.LOADER_CLASSES)
+            yield self.loader_case(rng, tier, cls, [2, 1], [1, 2], {}, bad_kwarg=bad)
         for lens in sets:
             N = len(lens)
             rl = [rng.randrange(1, 5) for _ in range(N)]
             if N >= 4 and rng.random() < 0.5:
                 rl[1] = rl[0]
                 rl[3] = rl[2]
+            if 0 in lens:
+                rl[rng.randrange(N)] = 0
+            lays = self.layouts(rng)
             for _ in range(per_set):
                 cls = rng.choice(self.LOADER_CLASSES)
-                world = rng.choice((0, 0, 0, 2, 3)) if not cls.startswith("cw") else rng.choice((0, 0, 2))
-                case = {
-                    "kind": "loader", "cls": cls, "lens": lens, "rlens": rl,
-                    "B": rng.choice((1, 2, 2, 3, 4, 11)), "nb": rng.choice((1, 2, 2, 3, 4)),
-                    "dynamic": rng.random() < 0.4, "drop": rng.random() < 0.4,
-                    "shuffle": rng.random() < 0.6, "sort": rng.random() < 0.5,
-                    "batch_first": rng.random() < 0.5,
-                    "suppress_uttids": rng.random() < 0.5, "suppress_alis": rng.random() < 0.5,
-                    "tokens_only": rng.random() < 0.6, "two_d": rng.random() < 0.4,
-                    "defaults": rng.random() < 0.25,
-                    "seed": rng.randrange(1, 1000), "init_epoch": rng.choice((0, 0, 3)),
-                    "epochs": rng.choice((1, 2, 3)), "world": world,
-                    "rank": rng.randrange(world) if world else 0, "uneven": "uneven",
-                    "left": rng.randrange(0, 3), "right": rng.randrange(0, 3), "reverse": rng.random() < 0.3,
-                }
-                if world and tier != "quick" and rng.random() < 0.3:
-                    case["epochs"] = 6
-                if cls.startswith("cw"):
-                    case["nb"] = 1
-                    case["dynamic"] = False
+                case = self.loader_case(rng, tier, cls, lens, rl, rng.choice(lays))
+                if n_workers_left > 0 and N and rng.random() < 0.08:
+                    n_workers_left -= 1
+                    case["num_workers"] = rng.choice((1, 2))
+                    case["epochs"] = 1
                 yield case
+
+    def loader_case(self, rng, tier, cls, lens, rl, lay, bad_kwarg=None):
+        N = len(lens)
+        cw = cls.startswith("cw")
+        world = rng.choice((0, 0, 0, 2, 3)) if not cw else rng.choice((0, 0, 2))
+        case = {
+            "kind": "loader", "cls": cls, "lens": lens, "rlens": rl,
+            "B": rng.choice((1, 2, 2, 3, 4, 11)), "nb": rng.choice((1, 2, 2, 3, 4)),
+            "dynamic": rng.random() < 0.4, "drop": rng.random() < 0.4,
+            "shuffle": rng.random() < 0.6, "sort": rng.random() < 0.5,
+            "batch_first": rng.random() < 0.5,
+            "suppress_uttids": rng.random() < 0.5, "suppress_alis": rng.random() < 0.5,
+            "tokens_only": rng.random() < 0.6, "two_d": rng.random() < 0.4,
+            "defaults": rng.random() < 0.25,
+            "seed": rng.randrange(1, 1000), "init_epoch": rng.choice((0, 0, 3)),
+            "epochs": rng.choice((1, 2, 3)), "world": world,
+            "rank": rng.randrange(world) if world else 0,
+            "uneven": rng.choice(("uneven", "uneven", "uneven", "raise", "ignore", "drop")),
+            "left": rng.randrange(0, 3), "right": rng.randrange(0, 3), "reverse": rng.random() < 0.3,
+        }
+        if world and tier != "quick" and rng.random() < 0.3:
+            case["epochs"] = 6
+        if cw:
+            case["nb"] = 1
+            case["dynamic"] = False
+        # ---- options left to the class defaults
+        om = [k for k in ("shuffle", "sort_batch", "batch_first", "init_epoch", "uneven", "seed")
+              if rng.random() < 0.1 and not (cw and k in ("sort_batch", "batch_first", "uneven"))]
+        if om:
+            case["omit"] = om
+        # ---- how the data and the parameters reach the constructor
+        if rng.random() < 0.2:
+            case["data_as"] = "dataset"
+            case["defaults"] = False
+        if rng.random() < 0.25:
+            case["split_params"] = True
+            if cls.startswith("spect") and rng.random() < 0.3:
+                case["legacy_params"] = True
+        if N >= 2 and rng.random() < 0.15:
+            keep = sorted(rng.sample(range(N), rng.randrange(1, N)))
+            case["subset"] = keep + ([99] if rng.random() < 0.3 else [])
+            if case.get("split_params") and rng.random() < 0.5:
+                case["subset_via_loader_params"] = True
+        if rng.random() < 0.2:
+            case["sos"] = 7
+        if rng.random() < 0.2:
+            case["eos"] = 8
+        if cls != "lang" and 0 not in lens:     # (a transform of an empty utterance is C18's subject)
+            if rng.random() < 0.12:
+                case["mvn"] = True
+            if rng.random() < 0.08:
+                case["delta"] = 1
+        if rng.random() < 0.1:
+            case["pin_memory"] = True
+        case.update(lay)
+        if cls == "lang":
+            case.pop("with_ref", None)
+        # ---- what is done with the object
+        e0 = 0 if "init_epoch" in om else case["init_epoch"]
+        if rng.random() < 0.3:
+            case["jump"] = rng.randrange(0, e0 + case["epochs"] + 4)
+        if rng.random() < 0.25:
+            case["abandon"] = True
+        if bad_kwarg:
+            case["bad_kwarg"] = bad_kwarg
+        return case
 
     # ================================================================== implementation
     def run_impl(self, case):
@@ -334,34 +562,67 @@ class C14(PropertyCheck):
             return getattr(self, "impl_" + case["kind"])(case)
 
     # ---- sampler
+    @staticmethod
+    def raw_bucket(kind, b):
+        """Bucket ids are arbitrary sortable hashables; every coding below keeps the order of `b`."""
+        if kind == "neg":
+            return b - 5
+        if kind == "str":
+            return f"b{b:03d}"
+        if kind == "tuple":
+            return (b // 3, b % 3)
+        return b
+
     def impl_sampler(self, case):
         from pydrobert.torch.data import BucketBatchSampler
         from pydrobert.torch._dataloaders import _get_batch_sampler_len
-        bs = BucketBatchSampler(ListSampler(case["order"]), dict(map(tuple, case["i2b"])),
-                                dict(map(tuple, case["b2s"])), case["drop"])
+        kind = case.get("idkind", "int")
+        i2b = {i: self.raw_bucket(kind, b) for i, b in case["i2b"]}
+        b2s = {self.raw_bucket(kind, b): n for b, n in case["b2s"]}
+        args = (ListSampler(case["order"]), i2b, b2s) + (() if case.get("drop_omitted") else (case["drop"],))
+        bs = BucketBatchSampler(*args)
+
+        def length():
+            try:
+                return int(_get_batch_sampler_len(bs))
+            except Exception as e:
+                return {"err": type(e).__name__}
+
+        def full():
+            out, err = [], None
+            try:
+                for b in bs:
+                    out.append([int(x) for x in b])
+            except Exception as e:
+                err = type(e).__name__
+            return out, err
+        ln = length()
+        out, err = full()
+        again, err2 = full()
+        # a pass abandoned after its first batch, with len() asked in the middle, leaves no trace
+        first, mid = None, None
         try:
-            ln = int(_get_batch_sampler_len(bs))
-        except Exception as e:
-            ln = {"err": type(e).__name__}
-        out, err = [], None
-        try:
-            for b in bs:
-                out.append([int(x) for x in b])
-        except Exception as e:
-            err = type(e).__name__
-        again, err2 = [], None
-        try:
-            for b in bs:
-                again.append([int(x) for x in b])
-        except Exception as e:
-            err2 = type(e).__name__
-        return {"batches": out, "err": err, "len": ln, "repeatable": again == out and err == err2}
+            it = iter(bs)
+            first = next(it, None)
+            mid = length()
+            del it
+        except Exception:
+            pass
+        third, err3 = full()
+        return {"batches": out, "err": err, "len": ln, "repeatable": again == out and err == err2,
+                "after_abandon": third == out and err3 == err and mid == ln
+                and (first is None or (bool(out) and [int(x) for x in first] == out[0]))}
 
     # ---- params
     def impl_params(self, case):
         import torch
         from pydrobert.torch._dataloaders import _get_bucket_batch_sampler_params
-        ds = [(torch.zeros(l, 1), None) for l in case["lens"]]
+        mk = {"pair": lambda l: (torch.zeros(l, 1), None),             # SpectDataSet, alis and ids suppressed
+              "quad": lambda l: (torch.zeros(l, 2), torch.zeros(l), torch.zeros(3), "id"),
+              "bare": lambda l: torch.zeros(l, dtype=torch.long),      # LangDataSet, ids suppressed
+              "bare2d": lambda l: torch.zeros(l, 3, dtype=torch.long),
+              "lang_pair": lambda l: (torch.zeros(l, dtype=torch.long), "id")}[case.get("elem", "pair")]
+        ds = [mk(l) for l in case["lens"]]
         try:
             i2b, b2s = _get_bucket_batch_sampler_params(ds, case["nb"], case["B"], case["dynamic"])
         except Exception as e:
@@ -376,31 +637,74 @@ class C14(PropertyCheck):
     def impl_window(self, case):
         import torch
         from pydrobert.torch.data import extract_window
-        feat = torch.tensor(case["feat"], dtype=torch.float)
+        lay = case.get("layout", "contig")
+        dt = {"f64": torch.double, "i64": torch.long}.get(lay, torch.float)
+        feat = torch.tensor(case["feat"], dtype=dt)
+        if lay == "strided":        # every second column of a wider matrix
+            wide = torch.zeros(feat.size(0), 2 * feat.size(1), dtype=dt)
+            wide[:, ::2] = feat
+            feat = wide[:, ::2]
+        elif lay == "transposed":
+            feat = feat.t().contiguous().t()
+        before = feat.clone()
         w = extract_window(feat, case["frame"], case["left"], case["right"], case["reverse"])
-        return {"window": tolist_int(w), "shape": list(w.shape)}
+        return {"window": tolist_int(w), "shape": list(w.shape), "dtype_kept": w.dtype == dt,
+                "input_kept": bool(torch.equal(before, feat))}
 
     # ---- collate functions
     def lang_items(self, case):
         return [(ref_of(i, R, case["two_d"]), utt_id(i)) for i, R in enumerate(case["rlens"])]
 
+    @staticmethod
+    def dtypes_of(case):
+        import torch
+        return (getattr(torch, case.get("fdtype", "float32")), getattr(torch, case.get("rdtype", "int64")))
+
+    @staticmethod
+    def snapshot(seq):
+        import torch
+        return [[x.clone() if isinstance(x, torch.Tensor) else x for x in (t if isinstance(t, tuple) else (t,))]
+                for t in seq]
+
+    @staticmethod
+    def same_as(snap, seq):
+        import torch
+        for a, t in zip(snap, seq):
+            for x, y in zip(a, t if isinstance(t, tuple) else (t,)):
+                if isinstance(x, torch.Tensor):
+                    if not (isinstance(y, torch.Tensor) and x.dtype == y.dtype and torch.equal(x, y)):
+                        return False
+                elif x is not y and x != y:
+                    return False
+        return len(snap) == len(seq)
+
     def impl_lang(self, case):
         import torch
         from pydrobert.torch.data import lang_seq_to_batch
         W = 3 if case["two_d"] else None
+        _, rdt = self.dtypes_of(case)
         seq = []
         for ref, uid in self.lang_items(case):
-            t = torch.tensor(ref, dtype=torch.long)
+            t = torch.tensor(ref, dtype=rdt)
             if W:
                 t = t.view(len(ref), 3)
             seq.append((t, uid) if case["has_uttids"] else t)
-        out = lang_seq_to_batch(seq, case["batch_first"], case["sort"], case["has_uttids"])
+        if case.get("seq_type") == "tuple":
+            seq = tuple(seq)
+        snap = self.snapshot(seq)
+        if case.get("omit_args"):
+            out = lang_seq_to_batch(seq)
+        else:
+            out = lang_seq_to_batch(seq, case["batch_first"], case["sort"], case["has_uttids"])
+        n_members = len(out)
         if case["has_uttids"]:
             refs, sizes, ids = out
             ids = list(ids)
         else:
             (refs, sizes), ids = out, None
-        return {"refs": refs.tolist(), "sizes": sizes.tolist(), "ids": ids, "shape": list(refs.shape)}
+        return {"refs": refs.tolist(), "sizes": sizes.tolist(), "ids": ids, "shape": list(refs.shape),
+                "n_members": n_members, "dtypes_ok": refs.dtype == rdt and sizes.dtype == torch.long,
+                "input_kept": self.same_as(snap, seq)}
 
     def spect_items(self, case):
         items = []
@@ -414,22 +718,30 @@ class C14(PropertyCheck):
     def impl_spect(self, case):
         import torch
         from pydrobert.torch.data import spect_seq_to_batch
+        fdt, rdt = self.dtypes_of(case)
         seq = []
         for it in self.spect_items(case):
             T = len(it["feat"])
-            tup = [torch.tensor(it["feat"], dtype=torch.float).view(T, F)]
+            tup = [torch.tensor(it["feat"], dtype=fdt).view(T, F)]
             if case["has_alis"]:
                 tup.append(None if it["ali"] is None else torch.tensor(it["ali"], dtype=torch.long))
             if it["ref"] is None:
                 tup.append(None)
             else:
-                r = torch.tensor(it["ref"], dtype=torch.long)
+                r = torch.tensor(it["ref"], dtype=rdt)
                 tup.append(r.view(len(it["ref"]), 3) if case["two_d"] else r)
             if case["has_uttids"]:
                 tup.append(it["id"])
             seq.append(tuple(tup))
-        out = list(spect_seq_to_batch(seq, case["batch_first"], case["sort"], case["has_alis"],
-                                      case["has_uttids"]))
+        if case.get("seq_type") == "tuple":
+            seq = tuple(seq)
+        snap = self.snapshot(seq)
+        if case.get("omit_args"):
+            out = list(spect_seq_to_batch(seq))
+        else:
+            out = list(spect_seq_to_batch(seq, case["batch_first"], case["sort"], case["has_alis"],
+                                          case["has_uttids"]))
+        n_all = len(out)
         ids = list(out.pop()) if case["has_uttids"] else None
         if case["has_alis"]:
             feats, alis, refs, fs, rs = out
@@ -437,8 +749,11 @@ class C14(PropertyCheck):
             (feats, refs, fs, rs), alis = out, None
         return {"feats": tolist_int(feats), "alis": None if alis is None else alis.tolist(),
                 "refs": None if refs is None else refs.tolist(), "feat_sizes": fs.tolist(),
-                "ref_sizes": None if rs is None else rs.tolist(), "ids": ids,
-                "n_members": len(out) + (1 if ids is not None else 0)}
+                "ref_sizes": None if rs is None else rs.tolist(), "ids": ids, "n_members": n_all,
+                "dtypes_ok": feats.dtype == fdt and fs.dtype == torch.long
+                and (refs is None or (refs.dtype == rdt and rs.dtype == torch.long))
+                and (alis is None or alis.dtype == torch.long),
+                "input_kept": self.same_as(snap, seq)}
 
     def cw_items(self, case):
         C = case["C"]
@@ -451,151 +766,264 @@ class C14(PropertyCheck):
     def impl_cw(self, case):
         import torch
         from pydrobert.torch.data import context_window_seq_to_batch
+        fdt, _ = self.dtypes_of(case)
         seq = []
         for it in self.cw_items(case):
             T = len(it["win"])
-            tup = [torch.tensor(it["win"], dtype=torch.float).view(T, case["C"], F),
+            tup = [torch.tensor(it["win"], dtype=fdt).view(T, case["C"], F),
                    None if it["ali"] is None else torch.tensor(it["ali"], dtype=torch.long)]
             if case["has_uttids"]:
                 tup.append(it["id"])
             seq.append(tuple(tup))
-        out = context_window_seq_to_batch(seq, case["has_uttids"])
-        res = {"windows": tolist_int(out[0]), "alis": None if out[1] is None else out[1].tolist()}
+        if case.get("seq_type") == "tuple":
+            seq = tuple(seq)
+        snap = self.snapshot(seq)
+        if case.get("omit_args"):
+            out = context_window_seq_to_batch(seq)
+        else:
+            out = context_window_seq_to_batch(seq, case["has_uttids"])
+        res = {"windows": tolist_int(out[0]), "alis": None if out[1] is None else out[1].tolist(),
+               "n_members": len(out), "dtypes_ok": out[0].dtype == fdt, "input_kept": self.same_as(snap, seq)}
         if case["has_uttids"]:
             res["sizes"] = out[2].tolist()
             res["ids"] = list(out[3])
         return res
 
     # ---- loaders
-    def build_loader(self, case, init_epoch):
+    def make_params(self, case, o):
+        """-> (params, data_params or None): merged parameter object, or loader parameters +
+        separate data-set parameters (`split_params`; `legacy_params`: the deprecated plain
+        DataLoaderParams for a SpectDataLoader, which means one bucket)."""
         from pydrobert.torch import data
         cls = case["cls"]
-        two_d = case["two_d"]
-        d = dataset_dir(case["lens"], case["rlens"], two_d, True, True)
-        common = {"num_workers": 0}
-        if cls == "lang":
-            p = data.LangDataLoaderParams(batch_size=case["B"], num_length_buckets=case["nb"],
-                                          size_batch_by_length=case["dynamic"], drop_last=case["drop"])
-            kw = {} if case["defaults"] else {"suppress_uttids": case["suppress_uttids"],
-                                              "tokens_only": case["tokens_only"]}
-            return data.LangDataLoader(os.path.join(d, "ref"), p, shuffle=case["shuffle"],
-                                       batch_first=case["batch_first"], sort_batch=case["sort"],
-                                       init_epoch=init_epoch, on_uneven_distributed=case["uneven"],
-                                       seed=case["seed"], **kw, **common)
-        if cls.startswith("spect"):
-            p = data.SpectDataLoaderParams(batch_size=case["B"], num_length_buckets=case["nb"],
-                                           size_batch_by_length=case["dynamic"], drop_last=case["drop"])
-            kw = {} if case["defaults"] else {"suppress_uttids": case["suppress_uttids"],
-                                              "suppress_alis": case["suppress_alis"],
-                                              "tokens_only": case["tokens_only"]}
-            if cls == "spect":
-                return data.SpectDataLoader(d, p, shuffle=case["shuffle"], batch_first=case["batch_first"],
-                                            sort_batch=case["sort"], init_epoch=init_epoch,
-                                            on_uneven_distributed=case["uneven"], seed=case["seed"],
-                                            **kw, **common)
-            kw.update(shuffle=case["shuffle"], sort_batch=case["sort"],
-                      on_uneven_distributed=case["uneven"])
-            if cls == "spect_train":
-                return data.SpectTrainingDataLoader(d, p, init_epoch=init_epoch, batch_first=case["batch_first"],
-                                                    seed=case["seed"], **kw, **common)
-            return data.SpectEvaluationDataLoader(d, p, init_epoch=init_epoch, batch_first=case["batch_first"],
-                                                  seed=case["seed"], **kw, **common)
-        p = data.ContextWindowDataLoaderParams(batch_size=case["B"], drop_last=case["drop"],
-                                               context_left=case["left"], context_right=case["right"],
-                                               reverse=case["reverse"])
-        kw = {} if case["defaults"] else {"suppress_uttids": case["suppress_uttids"]}
-        if cls == "cw":
-            return data.ContextWindowDataLoader(d, p, shuffle=case["shuffle"], init_epoch=init_epoch,
-                                                seed=case["seed"], **kw, **common)
-        kw["shuffle"] = case["shuffle"]
-        if cls == "cw_train":
-            return data.ContextWindowTrainingDataLoader(d, p, init_epoch=init_epoch, seed=case["seed"],
-                                                        **kw, **common)
-        return data.ContextWindowEvaluationDataLoader(d, p, init_epoch=init_epoch, seed=case["seed"],
-                                                      **kw, **common)
+        dkw = {}
+        if case.get("subset"):
+            dkw["subset_ids"] = [utt_id(i) for i in case["subset"]]
+        for k in ("sos", "eos"):
+            if o[k] is not None:
+                dkw[k] = o[k]
+        if cls != "lang":
+            if case.get("mvn"):
+                dkw["do_mvn"] = True
+            if case.get("delta"):
+                dkw["delta_order"] = int(case["delta"])
+        lkw = {"batch_size": case["B"], "drop_last": case["drop"]}
+        if o["cw"]:
+            dkw.update(context_left=case["left"], context_right=case["right"], reverse=case["reverse"])
+            merged, lonly, donly = (data.ContextWindowDataLoaderParams, data.DataLoaderParams,
+                                    data.ContextWindowDataParams)
+        else:
+            bkw = {"num_length_buckets": case["nb"], "size_batch_by_length": case["dynamic"]}
+            if cls == "lang":
+                merged, lonly, donly = (data.LangDataLoaderParams, data.DynamicLengthDataLoaderParams,
+                                        data.LangDataParams)
+            else:
+                merged, lonly, donly = (data.SpectDataLoaderParams, data.DynamicLengthDataLoaderParams,
+                                        data.SpectDataParams)
+            if case.get("legacy_params"):
+                lonly = data.DataLoaderParams
+            else:
+                lkw.update(bkw)
+        if not case.get("split_params"):
+            return merged(**lkw, **dkw), None
+        if (case.get("subset_via_loader_params") and cls != "lang" and not case.get("legacy_params")
+                and case.get("data_as") != "dataset"):
+            # deprecated route: subset_ids on the loader's parameter object, copied over by the loader
+            sub = dkw.pop("subset_ids", [])
+            return merged(subset_ids=sub, **lkw), donly(**dkw)
+        return lonly(**lkw), donly(**dkw)
 
-    def canon_batch(self, case, loader, batch):
-        """-> {"rows": [utterance index per row], problems: [...]} ; checks losslessness of the
-        collation against the data set contents (cut back to reported size == original tensor,
-        padding cells == pad value, ids attached to their rows)."""
+    def ds_kwargs(self, case, o, for_dataset):
+        """Keyword arguments that describe the data set (given to the loader with a path, to the
+        data-set constructor with `data_as == 'dataset'`)."""
+        import torch
         cls = case["cls"]
-        ds = loader.dataset
+        om = omitted(case)
+        kw = {}
+        if case.get("prefix"):
+            kw["file_prefix"] = case["prefix"]
+        if case.get("suffix", ".pt") != ".pt":
+            kw["file_suffix"] = case["suffix"]
+        if case.get("subdirs") and cls != "lang":
+            fd, ad, rd = SUBDIRS[True]
+            kw.update(feat_subdir=fd, ali_subdir=ad)
+            if not o["cw"]:
+                kw["ref_subdir"] = rd
+        if case.get("mvn") and cls != "lang":
+            kw.update(feat_mean=torch.tensor(MVN_MEAN), feat_std=torch.tensor(MVN_STD))
+        flags = ["suppress_uttids"] + ([] if o["cw"] else ["tokens_only"]) + (
+            ["suppress_alis"] if cls.startswith("spect") else [])
+        for k in flags:
+            if for_dataset or k not in om:
+                kw[k] = o[k]
+        return kw
+
+    def build_loader(self, case, epoch=None):
+        """The loader of the case; `epoch`: construct it at that epoch instead of the case's
+        (possibly omitted) `init_epoch`."""
+        from pydrobert.torch import data
+        cls = case["cls"]
+        o = eff(case)
+        om = omitted(case)
+        d = dataset_dir(case["lens"], case["rlens"], case["two_d"], o["with_ali"], o["with_ref"],
+                        case.get("prefix", ""), case.get("suffix", ".pt"), bool(case.get("subdirs")))
+        root = os.path.join(d, SUBDIRS[bool(case.get("subdirs"))][2]) if cls == "lang" else d
+        params, data_params = self.make_params(case, o)
+        as_ds = case.get("data_as") == "dataset"
+        kw = {}
+        if as_ds:
+            ds_cls = data.LangDataSet if cls == "lang" else (
+                data.ContextWindowDataSet if o["cw"] else data.SpectDataSet)
+            target = ds_cls(root, params=data_params if data_params is not None else params,
+                            **self.ds_kwargs(case, o, True))
+        else:
+            target = root
+            kw.update(self.ds_kwargs(case, o, False))
+        if data_params is not None:
+            kw["data_params"] = data_params
+        for k in ("shuffle", "sort_batch", "batch_first"):
+            if k not in om and not (o["cw"] and k != "shuffle"):
+                kw[k] = o[k]
+        if epoch is not None:
+            kw["init_epoch"] = epoch
+        elif "init_epoch" not in om:
+            kw["init_epoch"] = o["init_epoch"]
+        if "seed" not in om:
+            kw["seed"] = case["seed"]
+        if "uneven" not in om and not o["cw"]:
+            kw["on_uneven_distributed"] = o["uneven"]
+        kw["num_workers"] = o["workers"]
+        if case.get("pin_memory"):
+            kw["pin_memory"] = True
+        if case.get("bad_kwarg"):
+            kw[case["bad_kwarg"]] = {"batch_size": 3, "drop_last": True}.get(case["bad_kwarg"])
+        ctor = {"lang": data.LangDataLoader, "spect": data.SpectDataLoader,
+                "spect_train": data.SpectTrainingDataLoader, "spect_eval": data.SpectEvaluationDataLoader,
+                "cw": data.ContextWindowDataLoader, "cw_train": data.ContextWindowTrainingDataLoader,
+                "cw_eval": data.ContextWindowEvaluationDataLoader}[cls]
+        return ctor(target, params, **kw)
+
+    def expected_utts(self, case, o, ds):
+        """What every utterance of the (possibly restricted) data set looks like, by data-set
+        index. Untransformed features / alignments / references come from the generator's own
+        coding; with a feature transform (mvn, deltas) the data set's own item is the original."""
+        import torch
+        out = []
+        for j, i in enumerate(o["ids"]):
+            T = case["lens"][i]
+            if o["lang"]:
+                feat = None
+            elif o["transformed"]:
+                feat = ds.get_utterance_tuple(j)[0]
+            else:
+                feat = torch.tensor(feat_of(i, T), dtype=torch.float).view(T, F)
+            out.append({"i": i, "id": utt_id(i), "T": T, "feat": feat,
+                        "ali": ali_of(i, T) if (o["with_ali"] and not o["suppress_alis"]) else None,
+                        "ref": ref_expected(case, o, i) if (o["with_ref"] and not o["cw"]) else None})
+        return out
+
+    def canon_batch(self, case, o, exp, batch):
+        """-> {"rows": [data-set index per row], problems: [...]} ; checks losslessness of the
+        collation against the data set contents (cut back to reported size == original tensor,
+        padding cells == pad value, ids attached to their rows, tuple layout as documented)."""
+        import torch
+        if o["cw"]:
+            return self.canon_cw(case, o, exp, batch)
         probs = []
-        if cls.startswith("cw"):
-            return self.canon_cw(case, ds, batch)
-        has_ids = not ds.suppress_uttids
+        lang = o["lang"]
+        has_ids = not o["suppress_uttids"]
+        has_alis = not lang and not o["suppress_alis"]
+        want = (2 if lang else 4) + int(has_alis) + int(has_ids)
+        if not isinstance(batch, (tuple, list)) or len(batch) != want:
+            n = len(batch) if isinstance(batch, (tuple, list)) else type(batch).__name__
+            return {"rows": [], "problems": [f"batch tuple has {n} members, {want} documented"], "has_ids": has_ids}
         batch = list(batch)
         ids = list(batch.pop()) if has_ids else None
-        if cls == "lang":
+        alis = feats = fsizes = None
+        if lang:
             refs, rsizes = batch
-            feats = fsizes = alis = None
-            has_alis = False
-            two_d = not ds.tokens_only and case["two_d"]
+        elif has_alis:
+            feats, alis, refs, fsizes, rsizes = batch
         else:
-            has_alis = not ds.suppress_alis
-            if has_alis:
-                feats, alis, refs, fsizes, rsizes = batch
-            else:
-                (feats, refs, fsizes, rsizes), alis = batch, None
-            two_d = not ds.tokens_only and case["two_d"]
-        bf = loader.batch_first
+            feats, refs, fsizes, rsizes = batch
+        bf = o["batch_first"]
 
         def rows_of(t):
             return t if bf else t.transpose(0, 1)
-        key = rows_of(refs) if cls == "lang" else rows_of(feats)
-        sizes = rsizes if cls == "lang" else fsizes
+        key = rows_of(refs) if lang else rows_of(feats)
+        sizes = rsizes if lang else fsizes
+        if key is None or sizes is None:
+            return {"rows": [], "problems": ["the bucketed member of the batch is None"], "has_ids": has_ids}
         n_rows = key.size(0)
         if sizes.numel() != n_rows:
             probs.append(f"{sizes.numel()} sizes for {n_rows} rows")
+            return {"rows": [], "problems": probs, "has_ids": has_ids}
+        if sizes.dtype != torch.long:
+            probs.append(f"sizes have dtype {sizes.dtype}")
         if n_rows and key.size(1) != int(sizes.max()):
             probs.append(f"padded length {key.size(1)} != longest reported size {int(sizes.max())}")
+        if ids is not None and len(ids) != n_rows:
+            probs.append(f"{len(ids)} ids for {n_rows} rows")
+            return {"rows": [], "problems": probs, "has_ids": has_ids}
         rows = []
         for n in range(n_rows):
-            # which utterance is this row? from its content (first cell), cross-checked with the id
             sz = int(sizes[n])
-            if sz > 0:
-                first = key[n][0]
-                i = int(first.flatten()[0].item()) // 1000 - 1
-            elif ids is not None:
-                i = int(ids[n][1:])
+            # which utterance is this row? from its content, cross-checked with the id
+            cut = key[n][:sz]
+            if lang:
+                cand = [j for j, u in enumerate(exp) if len(u["ref"]) == sz and cut.tolist() == u["ref"]]
             else:
-                i = -1
-            rows.append(i)
-            if ids is not None and (i < 0 or ids[n] != utt_id(i)):
-                probs.append(f"row {n} holds utterance {i} but carries id {ids[n]}")
-            if i < 0 or i >= len(case["lens"]):
-                probs.append(f"row {n}: unidentifiable content")
+                cand = [j for j, u in enumerate(exp) if u["T"] == sz and u["feat"].shape == cut.shape
+                        and torch.equal(u["feat"], cut)]
+            if ids is not None:
+                named = [j for j, u in enumerate(exp) if u["id"] == ids[n]]
+                if not named:
+                    probs.append(f"row {n} carries the unknown id {ids[n]}")
+                elif named[0] not in cand:
+                    probs.append(f"row {n}: cut to its size it is not the utterance its id {ids[n]} names")
+                cand = [j for j in cand if j in named] or cand
+            if len(cand) != 1:
+                probs.append(f"row {n}: cut to its size it is not an utterance of the data set")
+                rows.append(-1)
                 continue
-            T, R = case["lens"][i], case["rlens"][i]
-            if cls != "lang":
+            j = cand[0]
+            u = exp[j]
+            rows.append(j)
+            T = u["T"]
+            if not lang:
                 f = rows_of(feats)[n]
-                if int(fsizes[n]) != T or tolist_int(f[:T]) != feat_of(i, T):
-                    probs.append(f"row {n}: feats cut to its size != utterance {i}")
-                if bool((f[int(fsizes[n]):] != 0).any()):
+                if f.dtype != u["feat"].dtype:
+                    probs.append(f"feats have dtype {f.dtype}, the data set's {u['feat'].dtype}")
+                if bool((f[sz:] != 0).any()):
                     probs.append(f"row {n}: feature padding is not 0")
                 if has_alis:
-                    if alis is None:
-                        probs.append("alis missing although every utterance has one")
-                    else:
+                    if (alis is None) != (u["ali"] is None):
+                        probs.append("alis present iff the data set has alignments: violated")
+                    elif alis is not None:
                         a = rows_of(alis)[n]
-                        if a[:T].tolist() != ali_of(i, T):
-                            probs.append(f"row {n}: alis cut to its size != utterance {i}")
+                        if a[:T].tolist() != u["ali"]:
+                            probs.append(f"row {n}: alis cut to its size != utterance {u['id']}")
                         if bool((a[T:] != PAD).any()):
                             probs.append(f"row {n}: ali padding is not {PAD}")
-            if refs is None:
-                probs.append("refs missing although every utterance has one")
-            else:
+            if (refs is None) != (u["ref"] is None) or (rsizes is None) != (u["ref"] is None):
+                probs.append("refs / ref_sizes present iff the data set has references: violated")
+            elif refs is not None:
                 r = rows_of(refs)[n]
-                if int(rsizes[n]) != R or r[:R].tolist() != ref_of(i, R, two_d):
-                    probs.append(f"row {n}: refs cut to its size != utterance {i}")
+                R = len(u["ref"])
+                if int(rsizes[n]) != R or r[:R].tolist() != u["ref"]:
+                    probs.append(f"row {n}: refs cut to its size != utterance {u['id']}")
                 if bool((r[int(rsizes[n]):] != PAD).any()):
                     probs.append(f"row {n}: ref padding is not {PAD}")
         return {"rows": rows, "problems": probs, "has_ids": ids is not None}
 
-    def canon_cw(self, case, ds, batch):
+    def canon_cw(self, case, o, exp, batch):
         import torch
         probs = []
-        has_ids = not ds.suppress_uttids
+        has_ids = not o["suppress_uttids"]
+        want = 4 if has_ids else 2
+        if not isinstance(batch, (tuple, list)) or len(batch) != want:
+            n = len(batch) if isinstance(batch, (tuple, list)) else type(batch).__name__
+            return {"rows": [], "problems": [f"batch tuple has {n} members, {want} documented"], "has_ids": has_ids}
         if has_ids:
             windows, alis, wsizes, ids = batch
             ids = list(ids)
@@ -603,61 +1031,103 @@ class C14(PropertyCheck):
             (windows, alis), wsizes, ids = batch, None, None
         left, right, rev = case["left"], case["right"], case["reverse"]
         C = 1 + left + right
-        if windows.dim() != 3 or windows.size(1) != C or windows.size(2) != F:
+        if windows.dim() != 3 or windows.size(1) != C:
             probs.append(f"windows shape {list(windows.shape)}")
             return {"rows": [], "problems": probs, "has_ids": has_ids}
-        # utterance of every window row, from the centre frame's content
-        centre = (C - 1 - left) if rev else left
-        owners = [int(windows[k, centre, 0].item()) // 1000 - 1 for k in range(windows.size(0))]
-        rows = [k for k, _ in itertools.groupby(owners)]
-        pos = 0
-        for n, i in enumerate(rows):
-            if i < 0 or i >= len(case["lens"]):
-                probs.append(f"group {n}: unidentifiable content")
-                break
-            T = case["lens"][i]
-            feat = feat_of(i, T)
-            exp = [[feat[min(max(t - left + c, 0), T - 1)] for c in range(C)] for t in range(T)]
+
+        def want_windows(u):
+            T, feat = u["T"], u["feat"]
+            idx = [[min(max(t - left + c, 0), T - 1) for c in range(C)] for t in range(T)]
             if rev:
-                exp = [w[::-1] for w in exp]
-            got = tolist_int(windows[pos:pos + T])
-            if got != exp:
-                probs.append(f"group {n}: windows of utterance {i} are not feat[clamp(t-left+c)]")
-            if alis is None:
-                probs.append("alis missing although every utterance has one")
-            elif alis[pos:pos + T].tolist() != ali_of(i, T):
-                probs.append(f"group {n}: alis != utterance {i}")
+                idx = [w[::-1] for w in idx]
+            if not T:
+                return feat.new_zeros(0, C, feat.size(1))
+            return feat[torch.tensor(idx)]
+        rows, pos, n = [], 0, 0
+        total = windows.size(0)
+        while pos < total or (has_ids and n < len(ids)):
             if has_ids:
-                if n >= len(ids) or ids[n] != utt_id(i) or int(wsizes[n]) != T:
-                    probs.append(f"group {n}: id/size not attached to utterance {i}")
-            pos += T
-        if pos != windows.size(0):
+                if n >= len(ids) or n >= wsizes.numel():
+                    probs.append("window count does not add up to the reported sizes")
+                    break
+                named = [j for j, u in enumerate(exp) if u["id"] == ids[n]]
+                T = int(wsizes[n])
+                cand = [j for j in named if exp[j]["T"] == T]
+                if not cand:
+                    probs.append(f"group {n}: id/size not attached to an utterance ({ids[n]}, {T})")
+                    break
+            else:
+                cand = [j for j, u in enumerate(exp) if u["T"] > 0 and pos + u["T"] <= total]
+            hit = None
+            for j in cand:
+                w = want_windows(exp[j])
+                got = windows[pos:pos + exp[j]["T"]]
+                if got.shape == w.shape and torch.equal(got, w):
+                    hit = j
+                    break
+            if hit is None:
+                probs.append(f"group {n}: the windows at {pos} are not feat[clamp(t-left+c)] of an utterance"
+                             + (f" (id {ids[n]})" if has_ids else ""))
+                break
+            u = exp[hit]
+            rows.append(hit)
+            if (alis is None) != (u["ali"] is None):
+                probs.append("alis present iff the data set has alignments: violated")
+            elif alis is not None and alis[pos:pos + u["T"]].tolist() != u["ali"]:
+                probs.append(f"group {n}: alis != utterance {u['id']}")
+            pos += u["T"]
+            n += 1
+        if not probs and pos != total:
             probs.append("window count does not add up")
-        if has_ids and len(ids) != len(rows):
+        if has_ids and not probs and len(ids) != len(rows):
             probs.append(f"{len(ids)} ids for {len(rows)} utterances")
         return {"rows": rows, "problems": probs, "has_ids": has_ids}
 
     def impl_loader(self, case):
+        import torch
+        o = eff(case)
         W, rank = case.get("world", 0), case.get("rank", 0)
-        e0, k = case["init_epoch"], case["epochs"]
+        e0, k = o["init_epoch"], case["epochs"]
+        seedless = "seed" in omitted(case)
         with fake_dist(rank, W):
-            loader = self.build_loader(case, e0)
-            obs = {"epochs": [], "n_utts": len(loader.dataset)}
-            for _ in range(k):
-                lb = len(loader)
-                bs = [self.canon_batch(case, loader, b) for b in loader]
-                la = len(loader)
-                obs["epochs"].append({
-                    "len_before": lb, "len_after": la, "rows": [b["rows"] for b in bs],
-                    "problems": [p for b in bs for p in b["problems"]][:5],
-                    "has_ids": [b["has_ids"] for b in bs][:1]})
-            obs["epoch_attr"] = int(loader.epoch)
-            # identical (seed, epoch) => identical batches: a fresh loader started at the last epoch ...
-            l2 = self.build_loader(case, e0 + k - 1)
-            obs["direct_last"] = [self.canon_batch(case, l2, b)["rows"] for b in l2]
-            # ... and the same object rewound to the first
-            loader.epoch = e0
-            obs["rewound_first"] = [self.canon_batch(case, loader, b)["rows"] for b in loader]
+            if seedless:
+                torch.manual_seed(case["seed"])
+            loader = self.build_loader(case)
+            ds = loader.dataset
+            exp = self.expected_utts(case, o, ds)
+            obs = {"serves": [], "n_utts": len(ds), "utt_ids": list(ds.utt_ids)}
+            if seedless:
+                obs["base_seed"] = int(getattr(loader.batch_sampler.sampler, "base_seed", -1))
+                self._seeds[self.key(case)] = obs["base_seed"]
+
+            def full(tag):
+                eb, lb = int(loader.epoch), len(loader)
+                bs = [self.canon_batch(case, o, exp, b) for b in loader]
+                return {"tag": tag, "epoch_before": eb, "len_before": lb, "rows": [b["rows"] for b in bs],
+                        "problems": [p for b in bs for p in b["problems"]][:5],
+                        "has_ids": [b["has_ids"] for b in bs][:1],
+                        "len_after": len(loader), "epoch_after": int(loader.epoch)}
+            for op, arg in ops_of(case):
+                if op == "set":
+                    loader.epoch = arg
+                elif op == "serve":
+                    obs["serves"].append(full(arg))
+                    if arg == "epoch" and len(obs["serves"]) == k:
+                        obs["epoch_attr"] = int(loader.epoch)
+                        # identical (seed, epoch) => identical batches: a fresh loader started at the last epoch
+                        if seedless:
+                            torch.manual_seed(case["seed"])
+                        l2 = self.build_loader(case, epoch=e0 + k - 1)
+                        obs["direct_last"] = [self.canon_batch(case, o, exp, b)["rows"] for b in l2]
+                else:       # an iteration abandoned after its first batch
+                    eb, lb = int(loader.epoch), len(loader)
+                    it = iter(loader)
+                    first = next(it, None)
+                    del it
+                    obs["serves"].append({
+                        "tag": arg, "partial": True, "epoch_before": eb, "len_before": lb,
+                        "first": None if first is None else self.canon_batch(case, o, exp, first)["rows"],
+                        "epoch_after": int(loader.epoch)})
         return obs
 
     # ================================================================== model requests
@@ -690,12 +1160,18 @@ class C14(PropertyCheck):
                 {"win": [[x for row in w for x in row] for w in it["win"]], "ali": it["ali"], "id": it["id"]}
                 for it in items]}}
         if k == "loader":
-            e0, n = case["init_epoch"], case["epochs"]
-            orders = [sub_order(case, e) for e in range(e0, e0 + n + 1)]
+            if case.get("bad_kwarg"):
+                return None
+            o = eff(case)
+            seed = self.seed_of(case)
+            N = len(o["ids"])
+            W = case.get("world", 0)
             return {"op": "c14.loader", "case": {
-                "lens": key_lens(case), "nb": case["nb"], "B": case["B"], "dynamic": case["dynamic"],
-                "drop": case["drop"], "sort": case["sort"] and not case["cls"].startswith("cw"),
-                "orders": orders}}
+                "lens": key_lens(case), "nb": o["nb"], "B": case["B"], "dynamic": case["dynamic"],
+                "drop": case["drop"], "sort": o["sort_batch"], "cw": o["cw"], "mode": o["uneven"],
+                "dist": [case.get("rank", 0), W] if W else None, "init_epoch": o["init_epoch"],
+                "perms": [[e, ordering(case, seed, e, N)] for e in epochs_reached(case)],
+                "ops": [{"set": arg} if op == "set" else "serve" for op, arg in ops_of(case)]}}
         return None
 
     # ================================================================== correspondence
@@ -707,7 +1183,16 @@ class C14(PropertyCheck):
             return [f"implementation raised {impl['error']}: {impl.get('message')}"]
         out = []
         if k == "sampler":
-            for f in ("batches", "err", "len"):
+            ib, mb = impl["batches"], model["batches"]
+            if case.get("idkind", "int") != "int" and not case["drop"] and impl["err"] is None:
+                # the incomplete batches come "in the order of their bucket ids' hashes": only for
+                # non-negative integers is that the order of the ids, so it is not compared otherwise
+                t = sum(1 for sp in model["spec"] if sp and sp["rest"])
+                cut = len(mb) - t
+                ib, mb = ib[:cut] + sorted(ib[cut:]), mb[:cut] + sorted(mb[cut:])
+            if ib != mb:
+                out.append(f"batches: impl={impl['batches']} model={model['batches']}")
+            for f in ("err", "len"):
                 if impl[f] != model[f]:
                     out.append(f"{f}: impl={impl[f]} model={model[f]}")
         elif k == "params":
@@ -762,6 +1247,13 @@ class C14(PropertyCheck):
                 out.append(f"sizes/ids: impl={impl['sizes']},{impl['ids']} model={model['sizes']},{model['ids']}")
         return out
 
+    def seed_of(self, case):
+        """The shuffling seed in force: the case's, or - for a loader built without `seed` - the
+        `base_seed` attribute its sampler reports (drawn from torch's generator after manual_seed)."""
+        if "seed" in omitted(case):
+            return self._seeds.get(self.key(case), 0)
+        return case["seed"]
+
     def compare_loader(self, case, impl, model):
         if "error" in impl:
             if "err" in model and impl["error"] == model["err"]:
@@ -770,18 +1262,39 @@ class C14(PropertyCheck):
         if "err" in model:
             return [f"model fails with {model['err']}, implementation built a loader"]
         out = []
-        if impl["n_utts"] != len(case["lens"]):
-            out.append(f"data set has {impl['n_utts']} utterances, directory {len(case['lens'])}")
-        for j, (a, b) in enumerate(zip(impl["epochs"], model["epochs"])):
-            if a["rows"] != b["rows"]:
-                out.append(f"epoch {j}: batches impl={a['rows']} model={b['rows']}")
+        o = eff(case)
+        if impl["n_utts"] != len(o["ids"]):
+            out.append(f"data set has {impl['n_utts']} utterances, expected {len(o['ids'])}")
+        if len(impl["serves"]) != len(model["serves"]):
+            return out + [f"{len(impl['serves'])} passes observed, model has {len(model['serves'])}"]
+        seed = self.seed_of(case)
+        lens = key_lens(case)
+        for a, b in zip(impl["serves"], model["serves"]):
+            w = f"{a['tag']} pass (epoch {b['epoch']}): "
+            if "err" in b and "batches" not in b:
+                out.append(w + f"model fails with {b['err']}")
+                continue
+            if a["epoch_before"] != b["epoch"]:
+                out.append(w + f"loader.epoch = {a['epoch_before']} before the pass")
             if a["len_before"] != b["len"]:
-                out.append(f"epoch {j}: len() before the epoch impl={a['len_before']} model={b['len']}")
-            nxt = model["epochs"][j + 1]["len"]
-            if a["len_after"] != nxt:
-                out.append(f"epoch {j}: len() after the epoch impl={a['len_after']} model={nxt}")
-        if impl["epoch_attr"] != case["init_epoch"] + case["epochs"]:
-            out.append(f"loader.epoch = {impl['epoch_attr']} after {case['epochs']} epochs from {case['init_epoch']}")
+                out.append(w + f"len() before the pass impl={a['len_before']} model={b['len']}")
+            want = b["rows"]
+            if o["cw"] and o["suppress_uttids"]:
+                want = [[x for x in r if lens[x] > 0] for r in want]    # invisible without sizes
+            if a.get("partial"):
+                first = want[0] if want else None
+                if a["first"] != first:
+                    out.append(w + f"first batch impl={a['first']} model={first}")
+                continue
+            if a["rows"] != want:
+                out.append(w + f"batches impl={a['rows']} model={want}")
+            if a["len_after"] != b["len_after"]:
+                out.append(w + f"len() after the pass impl={a['len_after']} model={b['len_after']}")
+            lib = sub_order(case, seed, b["epoch"])
+            if lib != b["order"]:
+                out.append(w + f"sample order of a library sampler object {lib} != C13 model {b['order']}")
+        if impl["serves"] and impl["serves"][-1]["epoch_after"] != model["final_epoch"]:
+            out.append(f"loader.epoch = {impl['serves'][-1]['epoch_after']} at the end, model {model['final_epoch']}")
         return out
 
     # ================================================================== the property itself
@@ -845,6 +1358,9 @@ class C14(PropertyCheck):
                           "C14.len"))
         if not impl["repeatable"]:
             fails.append(("a second iteration over the same order differs", "C14.repeat"))
+        if not impl["after_abandon"]:
+            fails.append(("after an iteration abandoned behind its first batch (len() asked in the middle) a "
+                          "full iteration differs", "C14.repeat"))
         return fails
 
     def pred_params(self, case, impl, model):
@@ -898,15 +1414,35 @@ class C14(PropertyCheck):
             return [(f"extract_window raised {impl['error']}: {impl.get('message')}", "C14.window.raises")]
         if impl["window"] != model["spec"]:
             return [(f"window {impl['window']} != feat[clamp(frame-left+i)] = {model['spec']}", "C14.window")]
-        return []
+        fails = []
+        if impl["shape"] != [1 + case["left"] + case["right"], len(case["feat"][0])]:
+            fails.append((f"window shape {impl['shape']}", "C14.window"))
+        if not impl["dtype_kept"]:
+            fails.append(("the window does not have the feature matrix' dtype", "C14.window.dtype"))
+        if not impl["input_kept"]:
+            fails.append(("extract_window modified its input", "C14.window.input"))
+        return fails
 
     def pred_lang(self, case, impl, model):
         if "error" in impl:
             return [(f"lang_seq_to_batch raised {impl['error']}: {impl.get('message')}", "C14.collate.raises")]
         items = self.lang_items(case)
         refs = impl["refs"] if case["batch_first"] else transpose(impl["refs"], len(items))
-        return self.check_rows(case, refs, impl["sizes"], impl["ids"], [r for r, _ in items],
-                               [u for _, u in items], [PAD] * 3 if case["two_d"] else PAD, "refs")
+        fails = self.check_rows(case, refs, impl["sizes"], impl["ids"], [r for r, _ in items],
+                                [u for _, u in items], [PAD] * 3 if case["two_d"] else PAD, "refs")
+        if impl["n_members"] != 2 + int(case["has_uttids"]):
+            fails.append((f"{impl['n_members']} tuple members", "C14.collate.tuple"))
+        return fails + self.io_checks(impl)
+
+    @staticmethod
+    def io_checks(impl):
+        fails = []
+        if not impl.get("dtypes_ok", True):
+            fails.append(("the padded members do not keep the dtype of the sequences / sizes are not int64",
+                          "C14.collate.dtype"))
+        if not impl.get("input_kept", True):
+            fails.append(("the collate function modified the sequence it was given", "C14.collate.input"))
+        return fails
 
     @staticmethod
     def check_rows(case, rows, sizes, ids, originals, uids, pad, name):
@@ -923,6 +1459,12 @@ class C14(PropertyCheck):
             if pairs != want:
                 fails.append((f"{name}: rows cut to their sizes (with ids) are not the original sequences",
                               "C14.collate.lossless"))
+            else:
+                # Python's sorted is stable: sequences of equal length keep the order they came in
+                stable = sorted(zip(originals, uids), key=lambda p: -len(p[0]))
+                if cut != [o for o, _ in stable] or (ids is not None and ids != [u for _, u in stable]):
+                    fails.append((f"{name}: sequences of equal length are not in their input order (the "
+                                  "arrangement is the stable descending sort)", "C14.collate.sort_stable"))
         else:
             if cut != originals:
                 fails.append((f"{name}: row n cut to its size != sequence n", "C14.collate.lossless"))
@@ -979,7 +1521,7 @@ class C14(PropertyCheck):
                 if refs[n][:R] != it["ref"] or any(c != padr for c in refs[n][R:]):
                     fails.append((f"refs row {n} does not belong to the utterance in feats row {n}",
                                   "C14.collate.attached"))
-        return fails
+        return fails + self.io_checks(impl)
 
     def pred_cw(self, case, impl, model):
         if "error" in impl:
@@ -1001,83 +1543,129 @@ class C14(PropertyCheck):
             split = [[[w[c * F:(c + 1) * F] for c in range(C)] for w in g] for g in model["spec"]["split"]]
             if split != [it["win"] for it in items]:
                 fails.append(("splitting the model's concatenation by sizes does not return the windows", None))
-        return fails
+        if impl["n_members"] != (4 if case["has_uttids"] else 2):
+            fails.append((f"{impl['n_members']} tuple members", "C14.collate.tuple"))
+        return fails + self.io_checks(impl)
 
     def pred_loader(self, case, impl, model):
         cls = case["cls"]
+        o = eff(case)
+        if case.get("bad_kwarg"):
+            if impl.get("error") == "TypeError":
+                return []
+            return [(f"{cls} loader accepted the keyword {case['bad_kwarg']} (documented: TypeError): "
+                     f"{impl.get('error')}", "C14.loader.bad_kwarg")]
+        lens = key_lens(case)
         if "error" in impl:
-            sig = None
             msg = str(impl.get("message"))
-            if impl["error"] == "IndexError" and not case["lens"] and case["nb"] > 1:
+            if impl["error"] == "ValueError" and isinstance(model, dict) and model.get("err") == "ValueError":
+                return []       # on_uneven_distributed='raise' and a world size that does not divide N
+            sig = None
+            if impl["error"] == "ZeroDivisionError" and case["dynamic"] and 0 in lens:
+                sig = "C14.dynamic.zero_length_bound"
+            elif impl["error"] == "IndexError" and not case["lens"] and case["nb"] > 1:
                 sig = "C14.loader.empty_dataset_buckets"
             elif impl["error"] == "IndexError" and cls == "lang" and case["nb"] > 1:
                 sig = "C14.loader.lang_bucket_indexerror"
             elif cls in ("spect_train", "spect_eval") and "on_uneven_distributed" in msg:
                 sig = "C14.loader.deprecated_seed_positional"
-            elif impl["error"] == "ZeroDivisionError" and case["dynamic"] and 0 in key_lens(case):
-                sig = "C14.dynamic.zero_length_bound"
             return [(f"{cls} loader raised {impl['error']}: {msg} ", sig)]
         fails = []
-        N = len(case["lens"])
-        if impl["n_utts"] != N:
-            return [(f"the loader's data set has {impl['n_utts']} utterances, the directory {N}",
+        want_ids = [utt_id(i) for i in o["ids"]]
+        if impl["utt_ids"] != want_ids:
+            return [(f"the loader's data set holds {impl['utt_ids']}, the directory / subset {want_ids}",
                      "C14.loader.utterances_lost")]
         if model is None or "err" in model:
+            if isinstance(model, dict) and model.get("err") == "ValueError":
+                return [("on_uneven_distributed='raise' accepted a world size that does not divide the data set",
+                         "C14.loader.raise_accepted")]
             return [("no model verdict for a loader the implementation built", None)]
-        lens = key_lens(case)
         params = model.get("params")
-        e0 = case["init_epoch"]
-        counts = []
-        for j, ep in enumerate(impl["epochs"]):
-            where = f"epoch {e0 + j}: "
-            for p in ep["problems"]:
+        by_epoch = {}
+        for a, b in zip(impl["serves"], model["serves"]):
+            e = a["epoch_before"]
+            where = f"{a['tag']} pass, epoch {e}: "
+            if e != b["epoch"]:
+                fails.append((f"{a['tag']} pass: loader.epoch is {e} where the operations so far (init_epoch, "
+                              f"passes, assignments) put it at {b['epoch']}", "C14.loader.epoch"))
+                continue
+            if a["epoch_after"] != e + 1:
+                fails.append((where + f"loader.epoch = {a['epoch_after']} afterwards", "C14.loader.epoch"))
+            if a.get("partial") or "order" not in b:
+                continue
+            for p in a["problems"]:
                 fails.append((where + p, "C14.loader.collate"))
-            order = sub_order(case, e0 + j)
-            batches = ep["rows"]
-            if case["nb"] > 1 and not cls.startswith("cw"):
+            order = b["order"]      # C13's model: this rank's share of the epoch's ordering
+            batches = a["rows"]
+            invisible = o["cw"] and o["suppress_uttids"]
+            if invisible:
+                order = [x for x in order if lens[x] > 0]
+            if o["nb"] > 1:
                 i2b, sizes = params["idx2bucket"], params["sizes"]
                 spec = self.py_spec(order, lambda x: i2b[x], sizes)
                 bucket_of = (lambda x: i2b[x])
                 # never mix length classes
                 bd = params["bounds"]
-                for b in batches:
-                    cl = {sum(1 for q in bd if lens[x] > q) for x in b}
+                for bt in batches:
+                    cl = {sum(1 for q in bd if lens[x] > q) for x in bt if x >= 0}
                     if len(cl) > 1:
-                        fails.append((where + f"batch {b} mixes length classes (lengths {[lens[x] for x in b]}, "
-                                      f"bounds {bd})", "C14.pure"))
+                        fails.append((where + f"batch {bt} mixes length classes (lengths "
+                                      f"{[lens[x] for x in bt]}, bounds {bd})", "C14.pure"))
             else:
                 spec = self.py_spec(order, lambda x: 0, [case["B"]])
                 bucket_of = (lambda x: 0)
-            if any(x not in order for b in batches for x in b):
+            if any(x not in order for bt in batches for x in bt):
                 fails.append((where + "a batch holds an index the sampler did not produce", "C14.cover"))
                 continue
-            unsorted = [sorted(b, key=order.index) for b in batches]
-            fails += self.check_batches(unsorted, order, bucket_of, spec, case["drop"], where)
-            if case["sort"] and not cls.startswith("cw"):
-                for b in batches:
-                    if any(lens[b[i]] < lens[b[i + 1]] for i in range(len(b) - 1)):
-                        fails.append((where + f"batch {b} not sorted by length", "C14.loader.sort"))
-            elif batches != unsorted:
-                fails.append((where + "rows are not in sampler order although sort_batch is off", "C14.loader.order"))
-            counts.append(len(batches))
-            if ep["len_before"] != len(batches):
-                stale = j > 0 and ep["len_before"] == impl["epochs"][0]["len_before"]
-                fails.append((where + f"len() = {ep['len_before']} before the epoch, {len(batches)} batches yielded",
+            if invisible and any(lens[x] == 0 for x in b["order"]):
+                pass        # batch boundaries around an utterance without windows cannot be seen
+            else:
+                unsorted = [sorted(bt, key=order.index) for bt in batches]
+                fails += self.check_batches(unsorted, order, bucket_of, spec, case["drop"], where)
+                if o["sort_batch"]:
+                    for bt in batches:
+                        if any(lens[bt[i]] < lens[bt[i + 1]] for i in range(len(bt) - 1)):
+                            fails.append((where + f"batch {bt} not sorted by length", "C14.loader.sort"))
+                        elif bt != sorted(bt, key=lambda x: (-lens[x], order.index(x))):
+                            fails.append((where + f"batch {bt}: utterances of equal length are not in sampler "
+                                          "order (the arrangement is the stable descending sort)", "C14.loader.sort_stable"))
+                elif batches != unsorted:
+                    fails.append((where + "rows are not in sampler order although sort_batch is off",
+                                  "C14.loader.order"))
+            if a["len_before"] != len(batches):
+                first = impl["serves"][0]["len_before"]
+                stale = a is not impl["serves"][0] and a["len_before"] == first
+                fails.append((where + f"len() = {a['len_before']} before the pass, {len(batches)} batches yielded",
                               "C14.loader.len_stale" if stale else "C14.loader.len"))
-        varying = case.get("world", 0) > 1 and case["shuffle"]
-        if not varying:
-            for j, ep in enumerate(impl["epochs"]):
-                if ep["len_after"] != counts[j]:
-                    fails.append((f"epoch {e0 + j}: len() = {ep['len_after']} after the epoch, {counts[j]} batches",
-                                  "C14.loader.len"))
-        if impl["direct_last"] != impl["epochs"][-1]["rows"]:
-            fails.append((f"epoch {e0 + len(counts) - 1}: a loader started there yields {impl['direct_last']}, the "
-                          f"iterated one {impl['epochs'][-1]['rows']}", "C14.loader.determinism"))
-        if impl["rewound_first"] != impl["epochs"][0]["rows"]:
-            fails.append((f"epoch {e0} differs after rewinding loader.epoch", "C14.loader.determinism"))
-        if not case["defaults"] and impl["epochs"] and impl["epochs"][0]["has_ids"]:
-            if impl["epochs"][0]["has_ids"][0] != (not case["suppress_uttids"]):
-                fails.append(("suppress_uttids not honoured", "C14.loader.uttids"))
+            by_epoch.setdefault(e, []).append((a["tag"], batches))
+        # len() after a pass refers to the next epoch: where that one was served, compare
+        for a in impl["serves"]:
+            if a.get("partial"):
+                continue
+            nxt = by_epoch.get(a["epoch_before"] + 1)
+            if nxt and a["len_after"] != len(nxt[0][1]):
+                fails.append((f"{a['tag']} pass, epoch {a['epoch_before']}: len() = {a['len_after']} afterwards, "
+                              f"epoch {a['epoch_before'] + 1} has {len(nxt[0][1])} batches", "C14.loader.len"))
+        # identical (seed, epoch) => identical batches, whatever happened to the object before
+        e_last = o["init_epoch"] + case["epochs"] - 1
+        if "direct_last" in impl:
+            by_epoch.setdefault(e_last, []).append(("a loader constructed at that epoch", impl["direct_last"]))
+        for e, got in by_epoch.items():
+            for tag, rows in got[1:]:
+                if rows != got[0][1]:
+                    fails.append((f"epoch {e}: the {got[0][0]} pass yields {got[0][1]}, {tag} {rows}",
+                                  "C14.loader.determinism"))
+        for a in impl["serves"]:
+            if a.get("partial"):
+                full = by_epoch.get(a["epoch_before"])
+                if full:
+                    first = full[0][1][0] if full[0][1] else None
+                    if a["first"] != first:
+                        fails.append((f"epoch {a['epoch_before']}: the abandoned pass starts with {a['first']}, "
+                                      f"a full pass with {first}", "C14.loader.determinism"))
+        s0 = impl["serves"][0] if impl["serves"] else None
+        if s0 and s0.get("has_ids") and s0["has_ids"][0] != (not o["suppress_uttids"]):
+            fails.append(("suppress_uttids not honoured", "C14.loader.uttids"))
         return fails
 
     @staticmethod
@@ -1117,11 +1705,11 @@ class C14(PropertyCheck):
         if k == "cw":
             return len(case["lens"]) >= 2
         if k == "loader":
-            eps = impl.get("epochs", [])
-            if not eps or not eps[0]["rows"]:
+            eps = impl.get("serves", [])
+            if not eps or not eps[0].get("rows"):
                 return False
             rows = eps[0]["rows"]
-            return case["nb"] > 1 or any(len(b) < case["B"] for b in rows) or case["drop"]
+            return eff(case)["nb"] > 1 or any(len(b) < case["B"] for b in rows) or case["drop"]
         return True
 
     def tags(self, case, impl):
@@ -1131,18 +1719,49 @@ class C14(PropertyCheck):
             t.append(f"drop={case['drop']}")
             if "malformed" in case:
                 t.append("malformed")
+            t.append(f"bucket_ids={case.get('idkind', 'int')}")
+            if case.get("drop_omitted"):
+                t.append("drop=omitted")
+        elif k == "window":
+            t.append(f"window.layout={case.get('layout', 'contig')}")
         elif k == "params":
             t.append(f"dynamic={case['dynamic']}")
+            t.append(f"params.elem={case.get('elem', 'pair')}")
             if isinstance(impl, dict) and "sizes" in impl:
                 t.append(f"buckets_after_dedup={len(impl['sizes'])}" if len(impl["sizes"]) < case["nb"] else "buckets_kept")
         elif k == "loader":
-            t += [f"cls={case['cls']}", f"nb={'>1' if case['nb'] > 1 else 1}", f"drop={case['drop']}",
-                  f"shuffle={case['shuffle']}", f"sort={case['sort']}", f"batch_first={case['batch_first']}",
+            o = eff(case)
+            om = omitted(case)
+            t += [f"cls={case['cls']}", f"nb={'>1' if o['nb'] > 1 else 1}", f"drop={case['drop']}",
+                  f"shuffle={o['shuffle']}", f"sort={o['sort_batch']}", f"batch_first={o['batch_first']}",
                   f"dynamic={case['dynamic']}", f"world={case['world']}", f"N={len(case['lens'])}",
-                  f"suppress_uttids={'default' if case['defaults'] else case['suppress_uttids']}"]
+                  f"suppress_uttids={'default' if 'suppress_uttids' in om else case['suppress_uttids']}",
+                  f"data_as={case.get('data_as', 'path')}",
+                  "params=" + ("legacy" if case.get("legacy_params") else "split" if case.get("split_params")
+                               else "merged"),
+                  f"workers={o['workers']}"]
+            if case.get("world"):
+                t.append(f"uneven={o['uneven']}")
+            t += [f"omitted={k}" for k in sorted(om)]
+            for k in ("subset", "sos", "eos", "mvn", "delta", "prefix", "suffix", "subdirs", "pin_memory",
+                      "abandon", "bad_kwarg", "subset_via_loader_params"):
+                if case.get(k):
+                    t.append(f"with={k}")
+            for k in ("with_ali", "with_ref"):
+                if not case.get(k, True):
+                    t.append(f"without={k[5:]}_dir")
+            if case.get("jump") is not None:
+                e_end = o["init_epoch"] + case["epochs"]
+                t.append("jump=" + ("back" if case["jump"] < e_end else "forward" if case["jump"] > e_end else "same"))
+            if 0 in key_lens(case):
+                t.append("with=zero_length_utterance")
         elif k in ("lang", "spect"):
             t += [f"{k}.sort={case['sort']}", f"{k}.batch_first={case['batch_first']}",
-                  f"{k}.has_uttids={case['has_uttids']}"]
+                  f"{k}.has_uttids={case['has_uttids']}", f"{k}.rdtype={case.get('rdtype', 'int64')}"]
+            if case.get("omit_args"):
+                t.append(f"{k}.args=defaults")
+            if case.get("seq_type") == "tuple":
+                t.append(f"{k}.seq=tuple")
         return t
 
     def shrink(self, case):
@@ -1174,13 +1793,22 @@ class C14(PropertyCheck):
                 c["epochs"] -= 1
                 yield c
             for i in range(len(case["lens"])):
+                if case.get("subset"):
+                    break
                 c = dict(case)
                 c["lens"] = case["lens"][:i] + case["lens"][i + 1:]
                 c["rlens"] = case["rlens"][:i] + case["rlens"][i + 1:]
                 yield c
+            for f in ("omit", "data_as", "split_params", "legacy_params", "subset", "sos", "eos", "mvn",
+                      "delta", "pin_memory", "prefix", "suffix", "subdirs", "with_ali", "with_ref", "jump",
+                      "abandon", "num_workers", "subset_via_loader_params"):
+                if f in case:
+                    c = dict(case)
+                    del c[f]
+                    yield c
             for f, v in (("world", 0), ("init_epoch", 0), ("dynamic", False), ("sort", False),
-                         ("shuffle", False), ("drop", False), ("two_d", False)):
-                if case[f] != v:
+                         ("shuffle", False), ("drop", False), ("two_d", False), ("uneven", "uneven")):
+                if case.get(f, v) != v:
                     c = dict(case)
                     c[f] = v
                     if f == "world":
